@@ -61,6 +61,15 @@ declare -A CHECKS=(
  [R5-C10A-binary-op-table-negative-kind]="C10"
  [R5-C15A-function-token-list-splits-names]="C15 C14"
  [R5-C17B-empty-block-append-returns-equivalent-token]="C17 C08"
+ [R6-C01A-default-key-copied-with-zero-length]="C01 C16"
+ [R6-C04A-policy-kind-variable-hoisted]="C04 C18"
+ [R6-C04B-string-length-counts-runes]="C04 C06"
+ [R6-C06A-query-evaluates-with-another-symbol-table]="C06 C04"
+ [R6-C08B-append-takes-address-of-range-variable]="C08 C07"
+ [R6-C13A-base-world-dropped-reset-loses-limits]="C13 C11"
+ [R6-C15A-unmarshaler-extends-default-table]="C15 C07"
+ [R6-C18A-loaded-world-has-default-limits]="C18 C11"
+ [R6-C20B-empty-block-append-returns-clone]="C20 C17"
 )
 out=${OUT:-seeded/MATRIX.md}
 { echo "# Seeded changes x checks (quick tier, VERIF_SEED=${VERIF_SEED:-1}, /repo $(git -C /repo rev-parse --short HEAD))"; echo
